@@ -49,7 +49,7 @@ pub fn cfg_for(profile: &str, thorough: bool) -> GenCfg {
         "C04" => GenCfg { profile: "C04", retain: false, take: false, ..base },
         "C06" => GenCfg { profile: "C06", close: true, resize: true, drop_handles: true, ..base },
         "C07" => GenCfg { profile: "C07", resize: true, ..base },
-        "C08" => GenCfg { profile: "C08", resize: true, ..base },
+        "C08" => GenCfg { profile: "C08", resize: true, no_runtime_calls: true, ..base },
         "C09" => GenCfg { profile: "C09", resize: true, close: true, ..base },
         "C10" => GenCfg { profile: "C10", no_runtime_calls: true, resize: true, ..base },
         "C11" => GenCfg { profile: "C11", close: true, resize: true, ..base },
